@@ -27,13 +27,29 @@ def overlay_of(patch):
         shutil.rmtree(tmp, ignore_errors=True)
 
 
+def one(job):
+    expr, d = job
+    import io, contextlib
+    buf = io.StringIO()
+    with contextlib.redirect_stdout(buf):
+        _one(expr, d)
+    return buf.getvalue()
+
+
 def main():
     expr = sys.argv[1]
-    import importlib
     dirs = []
     for a in sys.argv[2:]:
         dirs += sorted(glob.glob(a))
-    for d in dirs:
+    import multiprocessing as mp
+    with mp.Pool(16) as pool:
+        for out in pool.imap(one, [(expr, d) for d in dirs], chunksize=1):
+            sys.stdout.write(out)
+
+
+def _one(expr, d):
+    import importlib
+    for d in [d]:
         patch = os.path.join(d, "patch.diff")
         if not os.path.exists(patch):
             continue
